@@ -598,7 +598,7 @@ fn write_evidence(
         "coverage": {
             "evaluations": st.runs,
             "distinct_nontrivial": st.sigs_faulted.len(),
-            "rule": "One evaluation = one simulated run: a reference-valid (hi, lo) value drawn from the seeded generator (classes below) and driven through five legs — formatting into a faulty fmt::Write sink; Serialize into a faulty simulated serializer plus read-back of the emitted record as seq / map / reversed map; Deserialize from a storage-damaged record through a faulty simulated deserializer; serde_json writer over a faulty io::Write; serde_json reader over damaged bytes and a faulty io::Read. distinct_nontrivial = number of distinct abstract seam traces among legs that ran under at least one planned fault: hash of (leg, sequence of seam call kinds, per-call result kind, chunk-length class / slot type / key kind, fault kind, outcome class) with concrete values abstracted away. Fault-free legs (about 35 %) are excluded from that count and reported separately.",
+            "rule": "One evaluation = one simulated run: a reference-valid (hi, lo) value drawn from the seeded generator (classes below) and driven through six legs — (Fmt) formatting into a faulty fmt::Write sink or a faulty io::Write; (Ser) Serialize into a faulty simulated serializer plus read-back of the emitted record as seq / map / reversed map, through a hint-driven format, a binary format and serde's value deserializers; (De) Deserialize from a storage-damaged record through a faulty simulated deserializer; (JsonWrite) serde_json writer over a faulty io::Write, plus round trips through Value, eight host structures and TOML; (JsonRead) serde_json reader over damaged bytes and a faulty io::Read, bare or inside a host structure; (Toml) toml parser over damaged text. In the quick tier 2048 further 'runs' are the thin validity-gate lattice (one per biased exponent of the high word); in the thorough tier the systematic sweep values are counted as runs too (see systematic_fault_position_sweep). distinct_nontrivial = number of distinct abstract seam traces among legs that ran under at least one planned fault: hash of (leg, sequence of seam call kinds, per-call result kind, chunk-length class / slot type / key kind, fault kind, outcome class) with concrete values abstracted away. Fault-free legs (about 35 % of the random legs) are excluded from that count and reported separately.",
             "samples": samples,
             "simulated_runs": st.runs,
             "systematic_fault_position_sweep": {
